@@ -3,3 +3,8 @@ CHECKS["C12"] = (
  "Every method result of parse.Input and buffer.Lexer is compared with an executable reference cursor while 10^6 (quick) / 3*10^7 (thorough) random contract-respecting histories run over hostile inputs and all constructors incl. failing readers; caller backing array guarded by a canary. Held-on-what-was-observed, not a proof.",
  "Trusts unicode/utf8 as the decoding reference and the harness's reference cursor (40 lines). Histories never move past the terminator (documented contract).",
  "DESIGN.md §4 C12")
+CHECKS["C13"] = (
+ "online reference-model monitor over reader schedules x op histories, shadow copies of returned slices, pool-invariant hook, held-memory measurement (runtime monitoring)",
+ "StreamLexer is driven by 1.5*10^6 (quick) / 4*10^7 (thorough) random histories over random reader chunk schedules (zero-length reads, EOF/error with or after the last bytes, failure at a random offset), initial sizes 0..4096 and five Free disciplines; every result is compared with a reference cursor, every returned slice is shadow-copied and re-compared after each call while protected, ShiftLen is compared with the model, hook H2 pool invariants are asserted at each quiescent point, and held memory / allocation are measured on streams of length L and 8L. Held on what was observed.",
+ "Trusts the reference cursor and the reading of the protection threshold recorded in DESIGN.md §4 C13; memory clause decided against the bound 32*(bufsize+k*longest)+4 KiB with full-buffer reads for the delayed discipline (see DESIGN).",
+ "DESIGN.md §4 C13")
